@@ -129,7 +129,7 @@ def discharge(obligations, axioms=(), timeout_ms=30000, rlimit=0, workers=None, 
         jobs.append((ob.name, to_smt2(list(axioms) + list(ob.pc), ob.goal), timeout_ms, rlimit, use_cvc5))
     if not jobs:
         return []
-    workers = workers or min(16, os.cpu_count() or 4)
+    workers = workers or int(os.environ.get("VF_WORKERS", "0") or 0) or min(16, os.cpu_count() or 4)
     if len(jobs) <= 6 or workers == 1:
         return [solve_text(j) for j in jobs]
     with ProcessPoolExecutor(max_workers=workers, mp_context=mp.get_context("fork")) as ex:
